@@ -1152,17 +1152,12 @@ func c13CloseAll(c *Ctx) {
 			if !ok {
 				return true
 			}
-			lid := identOf(rs.X)
-			if lid == nil {
-				return true
-			}
-			lobj, ok := info.Uses[lid].(*types.Var)
-			if !ok || lobj.IsField() {
-				return true
-			}
 			if tv, ok := info.Types[rs.X]; !ok || typeStr(tv.Type) != "[]markup.attributeMarker" {
 				return true
 			}
+			// the list: a local, or a field of the parser (then it must be emptied the same way)
+			listStr := exprStr(rs.X)
+			sameList := func(e ast.Expr) bool { return exprStr(unparen(e)) == listStr }
 			// the body appends an Attribute per element
 			appends := false
 			walkNoLit(rs.Body, func(z ast.Node) bool {
@@ -1180,7 +1175,7 @@ func c13CloseAll(c *Ctx) {
 			isOpenList := false
 			walkNoLit(f.Body, func(z ast.Node) bool {
 				if as, ok := z.(*ast.AssignStmt); ok && len(as.Lhs) == 1 && len(as.Rhs) == 1 {
-					if id := identOf(as.Lhs[0]); id != nil && info.Uses[id] == types.Object(lobj) {
+					if sameList(as.Lhs[0]) {
 						if call, ok := unparen(as.Rhs[0]).(*ast.CallExpr); ok && isBuiltin(info, call, "append") {
 							isOpenList = true
 						}
@@ -1208,12 +1203,12 @@ func c13CloseAll(c *Ctx) {
 				if !ok || len(as.Lhs) != 1 || len(as.Rhs) != 1 || as.Tok != token.ASSIGN {
 					continue
 				}
-				if id := identOf(as.Lhs[0]); id == nil || info.Uses[id] != types.Object(lobj) {
+				if !sameList(as.Lhs[0]) {
 					continue
 				}
 				switch r := unparen(as.Rhs[0]).(type) {
 				case *ast.SliceExpr:
-					if hid := identOf(r.X); hid != nil && info.Uses[hid] == types.Object(lobj) && r.Low == nil && r.High != nil {
+					if sameList(r.X) && r.Low == nil && r.High != nil {
 						if tv, ok := info.Types[r.High]; ok && tv.Value != nil && tv.Value.ExactString() == "0" {
 							emptied = true
 						}
